@@ -13,8 +13,10 @@ import (
 
 	"verif/kit"
 
+	"github.com/mycoria/mycoria/config"
 	"github.com/mycoria/mycoria/frame"
 	"github.com/mycoria/mycoria/m"
+	"github.com/mycoria/mycoria/router"
 )
 
 // Active impostor: an adversary with its OWN key pair speaks the whole protocol
@@ -142,39 +144,79 @@ func impostorScenarios(t *testing.T, rep *kit.Report, env kit.Env, evals, nontri
 		"genuine": {"victim's genuine public address, signed by the attacker", genuine},
 	}
 	seqs := [][]string{{"forged"}, {"genuine"}, {"forged", "genuine"}, {"genuine", "forged"}, {"forged", "forged", "genuine"}, {"forged", "genuine", "genuine"}}
+	// prePing: before connecting, the attacker sends R a signed-class ping that claims the
+	// victim's address but carries the attacker's key (R refuses it; nothing of it may
+	// later help the attacker's handshake).
+	prePings := []string{"", "ping-claiming-victim-with-attacker-identity", "ping-claiming-victim-hash-with-attacker-key"}
 	for si, seq := range seqs {
 		for _, known := range []bool{false, true} {
-			if !env.Mine(si*2 + 1) {
-				continue
-			}
-			synctest.Test(t, func(t *testing.T) {
-				r := mkNode("R", 0, "u", "")
-				if known {
-					// R already knows the genuine victim (e.g. from gossip).
-					if err := r.State().AddRouter(&victim.PublicAddress); err != nil {
+			for pi, prePing := range prePings {
+				if !env.Mine(si*2 + 1 + pi*len(seqs)*2) {
+					continue
+				}
+				synctest.Test(t, func(t *testing.T) {
+					world := kit.NewWorld()
+					rst := config.Store{}
+					rst.Router.Universe = "u"
+					r, err := world.AddNodeWith(kit.NodeOpts{Name: "R", ID: pool[0], Store: rst})
+					if err != nil {
 						panic(err)
 					}
-				}
-				helper := mkNode("X", 2, "u", "")
-				for ci, s := range seq {
-					reg, pan := impostorConnection(r, helper.FrameBuilder(), steps[s].addr, att.PrivateKey, "u")
-					*evals++
-					*nontrivial++
-					desc := fmt.Sprintf("connections=%v (at connection %d) victim-known-before=%v", seq, ci+1, known)
-					if pan != nil {
-						rep.Violate("impostor/panic", fmt.Sprintf("link setup panicked: %v; %s", pan, desc), desc)
+					if known {
+						// R already knows the genuine victim (e.g. from gossip).
+						if err := r.State().AddRouter(&victim.PublicAddress); err != nil {
+							panic(err)
+						}
 					}
-					if reg {
-						rep.Violate("impostor/link-registered", fmt.Sprintf("an adversary without the victim's private key got a link registered for the victim's address: %s", desc), map[string]any{"connections": seq, "victim_known": known})
-						rep.Outcome("impostor/registered!")
-					} else {
-						rep.Outcome("impostor/refused")
+					helper := mkNode("X", 2, "u", "")
+					if prePing != "" {
+						signer := helper
+						if prePing == "ping-claiming-victim-hash-with-attacker-key" {
+							fid := &m.Address{PublicAddress: forged, PrivateKey: att.PrivateKey}
+							fn, err := kit.NewNode(kit.NodeOpts{Name: "F", ID: fid, StateOnly: true})
+							if err != nil {
+								panic(err)
+							}
+							signer = fn
+						}
+						for _, pt := range []string{"hello", "pong"} {
+							var body []byte
+							if pt == "hello" {
+								body = kit.MustCBOR(&router.HelloPingRequest{KeyExchange: make([]byte, 32), KeyExchangeType: "ECDH-X25519/BLAKE3", MTU: 1400})
+							} else {
+								body = kit.MustCBOR(map[string]string{"msg": "ping"})
+							}
+							raw, err := kit.BuildPing(signer, kit.PingSpec{Dst: r.Identity().IP, Src: victim.IP, MsgType: frame.RouterPing, PingType: pt, Code: 1, Body: body, RawSign: true})
+							if err != nil {
+								panic(err)
+							}
+							world.InjectVia(nil, r, raw)
+							time.Sleep(2 * time.Millisecond)
+						}
 					}
-					time.Sleep(5 * time.Millisecond)
-				}
-				_ = r.Peering().Stop()
-				synctest.Wait()
-			})
+					for ci, s := range seq {
+						reg, pan := impostorConnection(r, helper.FrameBuilder(), steps[s].addr, att.PrivateKey, "u")
+						*evals++
+						*nontrivial++
+						desc := fmt.Sprintf("connections=%v (at connection %d) victim-known-before=%v", seq, ci+1, known)
+						if prePing != "" {
+							desc += " preceded-by=" + prePing
+						}
+						if pan != nil {
+							rep.Violate("impostor/panic", fmt.Sprintf("link setup panicked: %v; %s", pan, desc), desc)
+						}
+						if reg {
+							rep.Violate("impostor/link-registered", fmt.Sprintf("an adversary without the victim's private key got a link registered for the victim's address: %s", desc), map[string]any{"connections": seq, "victim_known": known, "preceded_by": prePing})
+							rep.Outcome("impostor/registered!")
+						} else {
+							rep.Outcome("impostor/refused")
+						}
+						time.Sleep(5 * time.Millisecond)
+					}
+					_ = r.Peering().Stop()
+					synctest.Wait()
+				})
+			}
 		}
 	}
 }
